@@ -1,5 +1,5 @@
 import slayer
-from props.scommon import scen, preempt_scenario, pp_exact_fit_scenario, join_scenario, resume_elsewhere_scenario
+from props.scommon import scen, preempt_scenario, pp_exact_fit_scenario, join_scenario, resume_elsewhere_scenario, own_and_pool_oom_scenario
 """C08 - valid configurations run to the end; shipped schedulers decide admissibly"""
 from layer_s import ALGOS
 
@@ -19,6 +19,8 @@ def scenarios(ctx, n):
         yield join_scenario(s + i, ["priority", "naive", "overbook", "template"][i % 4])
     for i in range(max(6, n // 16)):
         yield resume_elsewhere_scenario(s + i)
+    for i in range(max(6, n // 16)):
+        yield own_and_pool_oom_scenario(s + i)
 
 
 def one_simulator_run(ctx, params, algo):
